@@ -379,7 +379,7 @@ Definition response_ok (o : obs) (resp : json) : bool :=
   end.
 
 (* ------------------------------------------------------------------ aggregation *)
-Inductive fld := FNone | FNum (q : Q) | FStr (s : string) | FList (l : list string).
+Inductive fld := FNone | FNum (q : Q) | FStr (s : string) | FList (l : list string) | FBool (b : bool).
 Fixpoint slist_eqb (a b : list string) : bool :=
   match a, b with
   | [], [] => true
@@ -392,6 +392,7 @@ Definition fld_eqb (a b : fld) : bool :=
   | FNum x, FNum y => Qeq_bool x y
   | FStr x, FStr y => String.eqb x y
   | FList x, FList y => slist_eqb x y
+  | FBool x, FBool y => Bool.eqb x y
   | _, _ => false
   end.
 Fixpoint key_eqb (a b : list fld) : bool :=
@@ -401,8 +402,8 @@ Fixpoint key_eqb (a b : list fld) : bool :=
   | _, _ => false
   end.
 
-(* a request as requests_aggregation sees it.  a_key = the 16 compared fields in the order of compare_reqs
-   (source, destination, tsp, tsp_mode, baud_rate, nodes_list, loose_list, spacing, power, nb_channel, f_min,
+(* a request as requests_aggregation sees it.  a_key = the 17 compared fields in the order of compare_reqs
+   (source, destination, bidir, tsp, tsp_mode, baud_rate, nodes_list, loose_list, spacing, power, nb_channel, f_min,
    f_max, format, OSNR, roll_off, tx_power);  a_tag = object identity (position in the input list);
    a_members = ghost: tags of the original requests joined into this one, in join order. *)
 Record areq := mkA {
@@ -413,15 +414,28 @@ Definition disjs := list (list string).        (* Disjunction.disjunctions_req o
 
 Fixpoint remove_first (x : string) (l : list string) : list string :=
   match l with [] => [] | y :: t => if String.eqb x y then t else y :: remove_first x t end.
-Definition others (id : string) (ds : disjs) : list string :=
-  fold_left (fun acc d => remove_first id (acc ++ d)) ds [].
 Definition subset_s (a b : list string) : bool := forallb (fun x => mem_s x b) a.
+Definition set_eq_s (a b : list string) : bool := subset_s a b && subset_s b a.
+(* set(d.disjunctions_req) - {id}, as a set *)
+Definition others (id : string) (d : list string) : list string := filter (fun x => negb (String.eqb id x)) d.
+Fixpoint remove_set (s : list string) (l : list (list string)) : option (list (list string)) :=
+  match l with
+  | [] => None
+  | x :: t => if set_eq_s s x then Some t
+              else match remove_set s t with Some r => Some (x :: r) | None => None end
+  end.
+(* sorted(sorted(set) ...) == sorted(sorted(set) ...): the two lists hold the same sets with the same multiplicities *)
+Fixpoint same_sets (a b : list (list string)) : bool :=
+  match a with
+  | [] => match b with [] => true | _ => false end
+  | s :: t => match remove_set s b with Some b' => same_sets t b' | None => false end
+  end.
 Definition same_disj (id1 id2 : string) (disj : disjs) : bool :=
   let d1 := filter (mem_s id1) disj in
   let d2 := filter (mem_s id2) disj in
   match d1, d2 with
   | [], [] => true
-  | _ :: _, _ :: _ => let t1 := others id1 d1 in let t2 := others id2 d2 in subset_s t1 t2 && subset_s t2 t1
+  | _ :: _, _ :: _ => same_sets (map (others id1) d1) (map (others id2) d2)
   | _, _ => false
   end.
 Definition compare_reqs (r1 r2 : areq) (disj : disjs) : bool :=
@@ -437,22 +451,8 @@ Definition merge (this_r req : areq) : areq :=
 
 Definition update_disj_ids (old new : string) (disj : disjs) : disjs :=
   map (fun d => if mem_s old d then remove_first old d ++ [new] else d) disj.
-Fixpoint remove_nth {A} (i : nat) (l : list A) : list A :=
-  match l, i with
-  | [], _ => []
-  | _ :: t, O => t
-  | x :: t, S k => x :: remove_nth k t
-  end.
-(* `for d in disjlist: if x in d: disjlist.remove(d)` — removal while iterating skips the next element *)
-Fixpoint drop_containing (fuel i : nat) (x : string) (l : disjs) : disjs :=
-  match fuel with
-  | O => l
-  | S f => match nth_error l i with
-           | None => l
-           | Some d => if mem_s x d then drop_containing f (S i) x (remove_nth i l)
-                       else drop_containing f (S i) x l
-           end
-  end.
+(* `for d in disjlist.copy(): if x in d: disjlist.remove(d)` *)
+Definition drop_containing (x : string) (l : disjs) : disjs := filter (fun d => negb (mem_s x d)) l.
 
 Definition agg_step (st : list areq * disjs) (t : nat) : list areq * disjs :=
   let '(local, disj) := st in
@@ -466,7 +466,7 @@ Definition agg_step (st : list areq * disjs) (t : nat) : list areq * disjs :=
           let local' := map (fun r => if Nat.eqb (a_tag r) (a_tag this_r) then nr else r)
                             (filter (fun r => negb (Nat.eqb (a_tag r) t)) local) in
           let disj1 := update_disj_ids (a_id req) (a_id nr) disj in
-          let disj2 := drop_containing (length disj1) 0 (a_id this_r) disj1 in
+          let disj2 := drop_containing (a_id this_r) disj1 in
           (local', disj2)
       end
   end.
